@@ -14,7 +14,7 @@ def run(chk):
     chk.rule("R1", "ToStandard denotes value -> a*value + b with (a, b) exactly the magnitude/offset implied by the unit's symbol")
     chk.rule("R2", "FromStandard o ToStandard is the identity as affine maps over Q(pi)")
     chk.rule("R3", "MapOfConversions{To,From}Standard<U,T>[X] is Conversions<U,X>::{To,From}Standard<T>, which applies Conversion<U,X> to each of `size` elements")
-    chk.rule("R4", "a multiplicative unit's path uses only * and / by constants; K roundings on To+From gives at most K ulps; K <= 16")
+    chk.rule("R4", "a multiplicative unit's path uses only * and / by constants; K roundings on To+From gives at most K ulps; K <= 32")
     chk.assumptions += [
         "R4 bounds the relative error by K*u/(1-K*u) in the standard model of floating-point arithmetic, assuming no overflow/underflow; it does not establish the tighter measured figure",
         "ulp error of the affine units (degC, degF) near cancellation and the subnormal range are NOT decided",
@@ -76,8 +76,8 @@ def run(chk):
                 if multiplicative:
                     if a_to.addsub or a_fr.addsub:
                         chk.violated("R4", inst, "multiplicative unit converted with an addition/subtraction on the value path (cancellation possible): %s ; %s" % (d_to, d_fr), loc_to)
-                    elif K > 16:
-                        chk.violated("R4", inst, "%d roundings on To+From (> 16): %s ; %s" % (K, d_to, d_fr), loc_to)
+                    elif K > 32:
+                        chk.violated("R4", inst, "%d roundings on To+From (> 32): %s ; %s" % (K, d_to, d_fr), loc_to)
                     else:
                         chk.holds("R4", inst, "K=%d roundings, bound %d ulp" % (K, K), loc_to, nontrivial=K > 0)
                     kmax[T] = max(kmax.get(T, 0), K)
